@@ -33,8 +33,9 @@ const fqExpr = `. as [$f, $b]
     ( $b | decode($f) | . as $r
     | if $r._error != null then "err"
       else
-        [ (try [$r | torepr] catch "reprerr")
-        , [ $r | keys[] | select(startswith("gap")) as $k | $r[$k] | [._start, (tobytes | tohex)] ]
+        [ (try [$r | if $f == "json" or $f == "jsonl" then tovalue else torepr end] catch "reprerr")
+        , if $f == "json" or $f == "jsonl" then []   # the value is the whole input: no gap fields
+          else [ $r | keys[] | select(startswith("gap")) as $k | $r[$k] | [._start, (tobytes | tohex)] ] end
         ]
       end
     )
@@ -153,6 +154,7 @@ type fmtDef struct {
 	enc      func(out []byte, v *val, p *picker) []byte
 	directed func() []*val
 	bad      []string
+	domain   func(*val) *val // maps a generated value into the format's domain (nil: identity)
 }
 
 // addEncoding adds the full case, the truncations and trailing-data cases of one encoding
@@ -240,6 +242,9 @@ func main() {
 		seenEnc := map[string]bool{}
 		// directed: every admissible form of the top node (inner nodes: smallest, then random)
 		for _, v := range f.directed() {
+			if f.domain != nil {
+				v = f.domain(v)
+			}
 			for first := 0; first < 12; first++ {
 				for pass, rr := range []*hlib.Rand{nil, r.Fork()} {
 					if pass == 1 && !thorough && first != 0 {
@@ -258,6 +263,9 @@ func main() {
 		for i := 0; i < nRandom; i++ {
 			vr := r.Fork()
 			v := genValue(vr, f.caps, 0)
+			if f.domain != nil {
+				v = f.domain(v)
+			}
 			for j := 0; j < 2; j++ {
 				enc := f.enc(nil, v, &picker{r: vr, first: -1})
 				if seenEnc[string(enc)] {
@@ -269,13 +277,24 @@ func main() {
 		}
 		o.Stat("random_values_"+f.name, nRandom)
 	}
+	if len(want) == 0 || want["json"] || want["jsonl"] {
+		w2 := want
+		if len(want) == 0 {
+			w2 = map[string]bool{"json": true, "jsonl": true}
+		}
+		nj := 60
+		if cfg.Thorough() {
+			nj = 1500
+		}
+		cs = append(cs, jsonCases(r, nj, w2, truncLimit)...)
+	}
 	evalAll(cs)
 	nText := 40
 	if cfg.Thorough() {
 		nText = 600
 	}
 	textWanted := len(want) == 0
-	for _, f := range []string{"text", "json", "jsonl", "yaml", "toml", "xml", "csv", "bson"} {
+	for _, f := range []string{"text", "json", "jsonl", "yaml", "toml", "xml", "csv"} {
 		if want[f] {
 			textWanted = true
 		}
